@@ -49,9 +49,9 @@ struct Config {
 // shape 3 = shape 0 plus an OBSTACLE: a directory sits where the first rotated file of the first day would go, so that rotation's
 // rename fails without any injected fault (the sink must then keep appending; nothing may be lost)
 // shape 4 = shape 0 with a directory where the first COMPRESSED file would go: the .gz cannot be created (the rotated file must then stay)
-const char *SHAPE_NAME[] = { "app.log", "app", "a+b.log", "app.log", "app.log" };
-const char *SHAPE_BASE[] = { "app", "app", "a+b", "app", "app" };
-const char *SHAPE_SUFFIX[] = { "log", "", "log", "log", "log" };
+const char *SHAPE_NAME[] = { "app.log", "app", "a+b.log", "app.log", "app.log", ".app.log" };   // shape 5: a hidden log file (dot file in a home directory)
+const char *SHAPE_BASE[] = { "app", "app", "a+b", "app", "app", ".app" };
+const char *SHAPE_SUFFIX[] = { "log", "", "log", "log", "log", "log" };
 const char *OBSTACLE = "app.2024-02-28.1.log";
 const char *OBSTACLE_GZ = "app.2024-02-28.1.log.gz";
 
@@ -62,13 +62,14 @@ std::vector<std::string> decoysFor(int shape)
                      "app2000-01-01.1.log", "other.2000-01-01.1.log", "app.log.2000-01-01.1", "app.2000-01-01.1", "app.2000-01-01.1.log.gz.tmp",
                      "app.2000-01-01.1.txt", "app.2000-01-01..log", "app.log.1" };
     case 3: case 4: return { };
+    case 5: return { ".app.2000-01-01.1.logx", "app.2000-01-01.1.log", ".xapp.2000-01-01.1.log", "..app.2000-01-01.1.log", ".app.log.1" };
     case 1: return { "app.2000-01-01.1.log", "app.2000-01-01.1x", "xapp.2000-01-01.1", "app.2000-01-01", "app.2000-01-01.1.gz.bak", "app2000-01-01.1", "app.1" };
     default: return { "aab.2000-01-01.1.log", "a+b.2000-01-01.1.logx", "aa+b.2000-01-01.1.log", "ab.2000-01-01.1.log", "a+b.2000-01-01.1" };
     }
 }
 
 // ------------------------------------------------------------------------------------------------ ops
-struct Op { char k; int a; }; // 'W' a = write kind, 'D' a = days, 'R'
+struct Op { char k; int a; }; // 'W' a = write kind, 'D' a = days, 'R', 'Q' a = restart with an option toggled (1 compression, 2 rotation on startup)
 struct WKind { std::string label; int size; int special; }; // special: 0 plain (framed size), 1 = one 2-byte char, 2 = two 2-byte chars, 3 = embedded LF
 
 std::vector<WKind> writeKinds(const Config &c)
@@ -93,6 +94,7 @@ std::string histStr(const std::vector<Op> &h, const std::vector<WKind> &wk)
         if (o.k == 'W') s += wk[o.a].label;
         else if (o.k == 'Y') s += "Y" + wk[o.a].label.substr(1);      // a lagging record (message dated yesterday) of that size
         else if (o.k == 'D') s += "D" + std::to_string(o.a);
+        else if (o.k == 'Q') s += o.a == 1 ? "Qc" : "Qs";
         else s += "R";
     }
     return s;
@@ -326,6 +328,14 @@ struct World {
         if (o.k == 'W') write(wk[o.a]);
         else if (o.k == 'Y') writeLagging(textFor(wk[o.a]));
         else if (o.k == 'D') vdev::nowMs += 86400000LL * o.a;
+        else if (o.k == 'Q') {
+            // the application is restarted with an edited configuration: compression (Qc) or rotation on startup (Qs) switched. The
+            // directory then holds rotated files of both kinds; limits and daily rotation stay (the oracles of C06 C07 C09 are stated
+            // for a fixed N, L and daily flag)
+            closeSink();
+            cfg.opts ^= (o.a == 1 ? 4 : 1);
+            open();
+        }
         else { closeSink(); open(); }
     }
 
@@ -622,6 +632,7 @@ RunResult runHistory(const Config &cfg, const std::vector<Op> &h, const std::vec
 bool g_reduced = false; // deep-narrow enumeration: only the smallest record and the record of exactly L bytes, D1, R
 
 bool g_lag = false;
+bool g_reconf = false; // restarts that switch an option (Qc, Qs) join the alphabet
 std::vector<Op> alphabet(const std::vector<WKind> &wk, int maxDay, int L = -1)
 {
     std::vector<Op> a;
@@ -633,6 +644,7 @@ std::vector<Op> alphabet(const std::vector<WKind> &wk, int maxDay, int L = -1)
     if (g_lag) for (size_t i = 0; i < wk.size(); i++) if (wk[i].special == 0 && (wk[i].size == 1 || wk[i].size == L)) a.push_back({ 'Y', (int)i });   // lagging records of size 1 and L
     for (int d = 1; d <= maxDay; d++) a.push_back({ 'D', d });
     a.push_back({ 'R', 0 });
+    if (g_reconf) { a.push_back({ 'Q', 1 }); a.push_back({ 'Q', 2 }); }
     return a;
 }
 
@@ -642,6 +654,8 @@ bool parseHistory(const std::string &s, const std::vector<WKind> &wk, std::vecto
     for (auto &tok : QString::fromStdString(s).split(' ', Qt::SkipEmptyParts)) {
         std::string t = tok.toStdString();
         if (t == "R") { out.push_back({ 'R', 0 }); continue; }
+        if (t == "Qc") { out.push_back({ 'Q', 1 }); continue; }
+        if (t == "Qs") { out.push_back({ 'Q', 2 }); continue; }
         if (t[0] == 'D') { out.push_back({ 'D', atoi(t.c_str() + 1) }); continue; }
         if (t[0] == 'Y') { bool f = false; for (size_t i = 0; i < wk.size(); i++) if (wk[i].label == "W" + t.substr(1)) { out.push_back({ 'Y', (int)i }); f = true; } if (!f) return false; continue; }
         bool found = false;
@@ -712,8 +726,10 @@ void modeHist(const std::vector<Config> &cfgs, int depth, int maxDay, int shard,
                 }
                 for (auto &o : alpha) {
                     if (!h.empty() && o.k == 'D' && h.back().k == 'D') continue;
-                    if (!h.empty() && o.k == 'R' && h.back().k == 'R') continue;
-                    if (h.empty() && o.k == 'R') continue;
+                    if (!h.empty() && o.k == 'R' && (h.back().k == 'R' || h.back().k == 'Q')) continue;   // a restart right after a restart changes nothing
+                    if (!h.empty() && o.k == 'Q' && h.back().k == 'R') continue;                            // R;Q is Q
+                    if (!h.empty() && o.k == 'Q' && h.back().k == 'Q' && h.back().a >= o.a) continue;        // Qc;Qs once (Qs;Qc is the same state, Qx;Qx is R)
+                    if (h.empty() && (o.k == 'R' || o.k == 'Q')) continue;
                     h.push_back(o); rec(h); h.pop_back();
                 }
             };
@@ -1005,8 +1021,10 @@ void modeCrash(const std::vector<Config> &cfgs, int depth, int shard, int nshard
                 for (auto &h : cur) for (auto &o : alpha) {
                     if (o.k == 'W' && wk[o.a].special >= 2) continue; // content classes do not matter to the rotation protocol
                     if (!h.empty() && o.k == 'D' && h.back().k == 'D') continue;
-                    if (!h.empty() && o.k == 'R' && h.back().k == 'R') continue;
-                    if (h.empty() && o.k == 'R') continue;
+                    if (!h.empty() && o.k == 'R' && (h.back().k == 'R' || h.back().k == 'Q')) continue;   // a restart right after a restart changes nothing
+                    if (!h.empty() && o.k == 'Q' && h.back().k == 'R') continue;                            // R;Q is Q
+                    if (!h.empty() && o.k == 'Q' && h.back().k == 'Q' && h.back().a >= o.a) continue;        // Qc;Qs once (Qs;Qc is the same state, Qx;Qx is R)
+                    if (h.empty() && (o.k == 'R' || o.k == 'Q')) continue;
                     auto h2 = h; h2.push_back(o); nxt.push_back(h2); hists.push_back(h2);
                 }
                 cur.swap(nxt);
@@ -1102,6 +1120,7 @@ int main(int argc, char **argv)
     int maxDay = vx::argInt(argc, argv, "--maxday", 2);
     g_reduced = vx::argInt(argc, argv, "--reduced", 0) != 0;
     g_lag = vx::argInt(argc, argv, "--lag", 0) != 0;
+    g_reconf = vx::argInt(argc, argv, "--reconf", 0) != 0;
     g_onlyProp = vx::argStr(argc, argv, "--only-prop", "");
     { int dl = vx::argInt(argc, argv, "--deadline-s", 0); if (dl > 0) g_deadline = realNow() + dl; }
     std::vector<Config> cfgs;
